@@ -9,6 +9,8 @@ package framework
 //@ define isAllocateOp(o Operation) bool = typeis(o, "allocateOperation")
 //@ define isUndoOp(o Operation) bool = typeis(o, "undoOperation")
 //@ define knownOp(o Operation) bool = isEvictOp(o) || isPipelineOp(o) || isAllocateOp(o) || isUndoOp(o)
+// index of the log entry an undo entry reverses
+//@ define undoTarget(o Operation) int = unbox(o, "undoOperation").operationIndex
 
 //@ func (evictOperation).Name
 //@   props C13
@@ -31,104 +33,34 @@ package framework
 //@   ensures result == "undo"
 //@ end
 
-//@ func Operation.Name
-//@   pure
-//@   ensures isEvictOp(recv) ==> result == "evict"
-//@   ensures isPipelineOp(recv) ==> result == "pipeline"
-//@   ensures isAllocateOp(recv) ==> result == "allocate"
-//@   ensures isUndoOp(recv) ==> result == "undo"
-//@ end
+// ---- statement.go: the undo log ------------------------------------------------------------------
+// Well-formed log: only the four in-repo entry kinds, and an undo entry points strictly backwards
+// (DESIGN C13: "log invariant undo@j => target < j"; it is what makes operationValid terminate).
+//@ define wfLog(s *Statement) bool = (len(s.operations) > 0 ==> knownOp(s.operations[0])) && forall j int :: 0 <= j && j < len(s.operations) ==> knownOp(s.operations[j]) && (isUndoOp(s.operations[j]) ==> 0 <= undoTarget(s.operations[j]) && undoTarget(s.operations[j]) < j)
+// entry j is an undo entry for entry i
+//@ define targets(s *Statement, j int, i int) bool = isUndoOp(s.operations[j]) && undoTarget(s.operations[j]) == i
+//@ define noUndoFor(s *Statement, i int) bool = forall j int :: 0 <= j && j < len(s.operations) ==> !targets(s, j, i)
+//@ define firstUndoFor(s *Statement, i int, j int) bool = 0 <= j && j < len(s.operations) && targets(s, j, i) && (forall k int :: 0 <= k && k < j ==> !targets(s, k, i))
+// Flat log (the shape at every quiescent point, i.e. outside Rollback/Discard): undo entries are
+// themselves never undone and no entry is undone twice. On a flat log the number of live undo
+// entries targeting i is 0 or 1, so "even number of live undo entries" <==> "no undo entry".
+//@ define flatLog(s *Statement) bool = (forall j int :: 0 <= j && j < len(s.operations) && isUndoOp(s.operations[j]) ==> noUndoFor(s, j)) && (forall j int, k int :: 0 <= j && j < k && k < len(s.operations) && isUndoOp(s.operations[j]) && isUndoOp(s.operations[k]) ==> undoTarget(s.operations[j]) != undoTarget(s.operations[k]))
 
-//@ func (*Statement).Checkpoint
-//@   props C13
-//@   requires s != nil
-//@   pure
-//@   ensures result == len(s.operations)
-//@ end
-
-//@ func (*Statement).clearOperations
-//@   props C13
-//@   requires s != nil
-//@   modifies s.operations
-//@   ensures len(s.operations) == 0
-//@ end
-
+// C13: "nothing is emitted for undone steps" rests on operationValid. DESIGN: valid(i) <==> an even
+// number of live undo entries target i. The code decides by the FIRST undo entry targeting i
+// (valid(i) = !valid(first undo of i)); stated here as the unfolding of that recursion to depth 3
+// (the deepest nesting Rollback/Discard can create) plus the parity form on flat logs.
 //@ func (*Statement).operationValid
 //@   props C13
-//@   requires s != nil
-//@   requires forall j int :: 0 <= j && j < len(s.operations) ==> knownOp(s.operations[j])
+//@   requires s != nil && wfLog(s)
 //@   pure
+//@   decreases len(s.operations) - i
 //@   loop 1
 //@     invariant 0 - 1 <= rangeindex && rangeindex < len(s.operations)
+//@     invariant forall j int :: 0 <= j && j <= rangeindex ==> !targets(s, j, i)
 //@     decreases len(s.operations) - rangeindex
-//@   ensures (forall j int :: 0 <= j && j < len(s.operations) ==> !isUndoOp(s.operations[j])) ==> result
-//@ end
-
-// ---- session_plugins.go: victim filters / scenario validators (C06) ----------------------------
-// C06: "never evict pods of non-preemptible workloads, nor of workloads still inside the minimum
-// runtime ...": the session-level filter accepts a victim iff EVERY registered plugin filter accepts it.
-// victimFilterHolds(f, actor, victim): the verdict of the registered plugin function f (abstract here;
-// the plugin's own contract - e.g. minruntime.reclaimFilterFn - characterises it).
-//@ declare victimFilterHolds(f ref, actor ref, victim ref) bool
-//@ define reclaimVictimOK(ssn *Session, actor *podgroup_info.PodGroupInfo, victim *podgroup_info.PodGroupInfo) bool = forall i int :: 0 <= i && i < len(ssn.ReclaimVictimFilterFns) ==> victimFilterHolds(ssn.ReclaimVictimFilterFns[i], actor, victim)
-//@ define preemptVictimOK(ssn *Session, actor *podgroup_info.PodGroupInfo, victim *podgroup_info.PodGroupInfo) bool = forall i int :: 0 <= i && i < len(ssn.PreemptVictimFilterFns) ==> victimFilterHolds(ssn.PreemptVictimFilterFns[i], actor, victim)
-
-//@ func (*Session).ReclaimVictimFilter
-//@   props C06 C05
-//@   requires ssn != nil
-//@   pure
-//@   loop 1
-//@     invariant 0 - 1 <= rangeindex && rangeindex < len(ssn.ReclaimVictimFilterFns)
-//@     invariant forall i int :: 0 <= i && i <= rangeindex ==> victimFilterHolds(ssn.ReclaimVictimFilterFns[i], reclaimer, victim)
-//@     decreases len(ssn.ReclaimVictimFilterFns) - rangeindex
-//@   ensures result == reclaimVictimOK(ssn, reclaimer, victim)
-//@   ensures [noFilters] len(ssn.ReclaimVictimFilterFns) == 0 ==> result
-//@ end
-
-//@ func (*Session).PreemptVictimFilter
-//@   props C06 C05
-//@   requires ssn != nil
-//@   pure
-//@   loop 1
-//@     invariant 0 - 1 <= rangeindex && rangeindex < len(ssn.PreemptVictimFilterFns)
-//@     invariant forall i int :: 0 <= i && i <= rangeindex ==> victimFilterHolds(ssn.PreemptVictimFilterFns[i], preemptor, victim)
-//@     decreases len(ssn.PreemptVictimFilterFns) - rangeindex
-//@   ensures result == preemptVictimOK(ssn, preemptor, victim)
-//@   ensures [noFilters] len(ssn.PreemptVictimFilterFns) == 0 ==> result
-//@ end
-
-// ---- session.go ----------------------------------------------------------------------------------
-// C13: every what-if simulation starts from an empty log bound to the session.
-//@ func (*Session).Statement
-//@   props C13
-//@   requires ssn != nil
-//@   fresh
-//@   ensures result.ssn == ssn && len(result.operations) == 0 && result.sessionID == ssn.ID
-//@ end
-
-// ---- statement.go: the undo log ------------------------------------------------------------------
-// Frame facts about ALL statements' logs, used by callees that may run arbitrary plugin code.
-// logsKept: no statement's log slice is re-assigned; opsKept: no existing log entry is overwritten;
-// logsGrow: logs only grow and keep their old entries (append-only).
-//@ define wfLog(s *Statement) bool = forall j int :: 0 <= j && j < len(s.operations) ==> knownOp(s.operations[j])
-//@ define logsKept() bool = forall st *Statement :: st.operations == old(st.operations)
-//@ define opsKept() bool = forall st *Statement, j int :: 0 <= j && j < old(len(st.operations)) ==> old(st.operations)[j] == old(st.operations[j])
-//@ define logGrows(s *Statement) bool = len(s.operations) >= old(len(s.operations)) && (forall j int :: 0 <= j && j < old(len(s.operations)) ==> s.operations[j] == old(s.operations[j]))
-
-//@ func Operation.Reverse
-//@   modifies *
-//@   ensures forall st *Statement :: len(st.operations) >= old(len(st.operations))
-//@   ensures forall st *Statement, j int :: 0 <= j && j < old(len(st.operations)) ==> st.operations[j] == old(st.operations[j])
-//@   ensures forall st *Statement :: old(wfLog(st)) ==> wfLog(st)
-//@   ensures forall p **Statement :: *p == old(*p)
-//@   ensures forall p *Operation :: old(allocated(p)) ==> *p == old(*p)
-//@ end
-
-//@ func (*Statement).undoOperation
-//@   props C13
-//@   requires s != nil && wfLog(s) && 0 <= index && index < len(s.operations)
-//@   modifies *
-//@   ensures [lenGrows] len(s.operations) >= old(len(s.operations))
-//@   ensures [prefixKept] forall j int :: 0 <= j && j < old(len(s.operations)) ==> s.operations[j] == old(s.operations[j])
-//@   ensures [wf] wfLog(s)
+//@   ensures [noUndo] noUndoFor(s, i) ==> result
+//@   ensures [undone] forall j int :: firstUndoFor(s, i, j) && noUndoFor(s, j) ==> !result
+//@   ensures [redone] forall j int, k int :: firstUndoFor(s, i, j) && firstUndoFor(s, j, k) && noUndoFor(s, k) ==> result
+//@   ensures [parityOnFlat] flatLog(s) ==> (result <==> noUndoFor(s, i))
 //@ end
